@@ -1,12 +1,16 @@
 import IcyVerif.Model.XbCompress
+import IcyVerif.Model.Sauce
 import IcyVerif.Gen.BinFmt
+import IcyVerif.Gen.BinFonts
 /-!
 # Binary art formats (C05): writers and loaders of XBin, BIN, ArtWorx ADF, iCE Draw IDF and Tundra
 
 Model of `Buffer::to_bytes(ext, lossless options)` and `Buffer::from_bytes` for the five binary formats
-(`src/formats/{xbinary,bin,artworx,ice_draw,tundra}.rs`), of the SAUCE record as far as the loaders use it
-(`src/sauce_mod/mod.rs`: what is written, `SauceData::extract`, `Buffer::set_sauce(.., true)`), and of the layer
-operations that decide the final size (`Layer::set_char`, `set_height`, `crop_loaded_file`).
+(`src/formats/{xbinary,bin,artworx,ice_draw,tundra}.rs`), on top of the SAUCE model of C11 (`Model/Sauce.lean`:
+`Buffer::write_sauce_info` incl. title / author / group / comments / flags of the buffer's own SAUCE data,
+`SauceData::extract`, the split `from_bytes` makes), of `Buffer::set_sauce` (resize, ice flag, `BitFont::from_sauce_name`,
+the stored SAUCE data), of `guess_font_name` (checksum table of the built-in fonts) and of the layer operations that decide
+the final size (`Layer::set_char`, `set_height`, `crop_loaded_file`).
 
 * `Pic` — the buffer as the writers see it: size, the cells `Buffer::get_char` answers, ice mode, palette, font table.
 * `LBuf` — a loaded buffer: buffer size, size of layer 0, the allocated rows of layer 0, ice mode, palette, fonts.
@@ -15,7 +19,9 @@ operations that decide the final size (`Layer::set_char`, `set_height`, `crop_lo
 * cells, attribute byte, XBin image data (raw and compressed), `decode_char`: REUSED from `Model/XbCompress.lean` (C06).
 
 The model follows the tree AFTER the C05 `fix:` commits (rows of the start buffer cleared; iCE Draw escape written once;
-Tundra writer: characters 1..=6, first cell, bold on bright colours; `fonts.first()` in the writers).
+Tundra writer: characters 1..=6, first cell, bold on bright colours; `fonts.first()` in the writers; Tundra loader takes SAUCE
+widths above 1000; XBin loader rejects 512-character mode without a font block; BIN writer refuses odd widths) and after the
+C02 bounds fixes of the loaders (every read beyond the end of the file is an `Err`, iCE Draw rows end at 65535).
 Integers: sizes and cursor positions are `Nat` except where the Rust `i32` can really go negative (Tundra's position
 command and therefore the layer/buffer HEIGHT, `Int`).  No `i32` overflow is reachable on these paths (all values are
 bounded by 16-bit fields or by the file length).
@@ -47,10 +53,32 @@ def defaultFont : Font := ⟨BinFmt.defaultFontName, BinFmt.defaultFontHeight, B
 def Font.isDefault (f : Font) : Bool :=
   f.name == BinFmt.defaultFontName && f.height == BinFmt.defaultFontHeight && f.data == BinFmt.defaultFontData
 
-/-- the name `guess_font_name` gives a font read from a file (only the default font is recognised here; any other
-    built-in font would get its own name, which only shows in the SAUCE record of a re-saved file) -/
+/-- first row of `CRC32_TABLE` as an array (built once) -/
+def crcRow0Arr : Array Nat := BinFmt.crcRow0.toArray
+
+/-- `update_crc32(crc, b)` on naturals -/
+def crcStep (crc b : Nat) : Nat := (crc / 256) ^^^ crcRow0Arr.getD ((b ^^^ crc) % 256) 0
+
+/-- `BitFont::calculate_checksum` of a font made by `create_8` / `from_basic`: all glyph bytes in order, start value 0 -/
+def fontChecksum (data : List Nat) : Nat := data.foldl crcStep 0
+
+def decimal (n : Nat) : List Nat := (Nat.toDigits 10 n).map Char.toNat
+
+/-- `fl!(.., "unknown-font-name", width = 8, height = h)` as SAUCE bytes (the isolating marks fluent puts around the
+    numbers are not CP437: `?`) -/
+def unknownFontName (h : Nat) : List Nat :=
+  BinFmt.unknownFontPre ++ decimal 8 ++ BinFmt.unknownFontMid ++ decimal h ++ BinFmt.unknownFontPost
+
+/-- `guess_font_name`: the name of the first built-in font (ANSI slots, then SAUCE fonts) with the same CHECKSUM —
+    the height is not compared, and two fonts with equal CRC-32 are not told apart -/
 def guessedName (h : Nat) (data : List Nat) : List Nat :=
-  if h = BinFmt.defaultFontHeight ∧ data = BinFmt.defaultFontData then BinFmt.defaultFontName else []
+  match BinFmt.fontCrcNames.find? (fun e => e.1 == fontChecksum data) with
+  | some e => e.2
+  | none => unknownFontName h
+
+/-- `BitFont::from_sauce_name` (names are ASCII: comparing the SAUCE bytes is comparing the strings) -/
+def sauceFontByName (name : List Nat) : Option Font :=
+  (BinFonts.sauceFonts.find? (fun e => e.1 == name)).map fun e => ⟨e.1, e.2.1, e.2.2⟩
 
 def triples : List Nat → List Rgb
   | r :: g :: b :: rest => (r, g, b) :: triples rest
@@ -85,6 +113,7 @@ structure Pic where
   ice : IceMode
   pal : List Rgb
   fonts : List (Nat × Font)        -- the font table (first entry of a slot counts)
+  sauce : Option Sauce.Meta := none -- `Buffer::get_sauce()`: what `write_sauce_info` reads of it
 
 def Pic.cell (p : Pic) (x y : Nat) : Cell := (p.rows.getD y []).getD x Cell.invisible
 
@@ -115,6 +144,7 @@ structure LBuf where
   ice : IceMode
   pal : List Rgb
   fonts : List (Nat × Font)
+  sauce : Option Sauce.Meta := none
 
 /-- `Buffer::new((w, h))` (+ `layers[0].lines.clear()` when the loader does that) -/
 def LBuf.start (w h : Nat) (clear : Bool) : LBuf :=
@@ -160,45 +190,36 @@ def LBuf.crop (b : LBuf) : LBuf :=
   let ls := popEmpty b.lines
   { b with lines := ls, lh := ls.length, bh := ls.length }
 
-/-! ## SAUCE: what the writers append, what `from_bytes` extracts -/
+/-! ## SAUCE: what the writers append, what `from_bytes` extracts (the model of C11, `Model/Sauce.lean`) -/
 
 def u16le (n : Nat) : List Nat := [n % 256, (n / 256) % 256]
-def u32le (n : Nat) : List Nat := [n % 256, (n / 256) % 256, (n / 65536) % 256, (n / 16777216) % 256]
 
 inductive SauceKind | xbin | bin | ansi | tundra
 deriving DecidableEq, Repr
 
-/-- `SauceString<22, 0>::from(name).append_to` (names are CP437 bytes already) -/
-def infoStr (name : List Nat) : List Nat :=
-  let n := name.take BinFmt.sauceInfoLen
-  n ++ List.replicate (BinFmt.sauceInfoLen - n.length) 0
+/-- index of the `SauceFileType` variant in `Gen.Sauce.kindNames` (declaration order) -/
+def SauceKind.idx : SauceKind → Nat
+  | .ansi => 2
+  | .tundra => 6
+  | .bin => 7
+  | .xbin => 8
 
-/-- the first 94 bytes of the record: ID, version, title, author, group (all blank: the buffer has no SAUCE data of its
-    own), date, file size -/
-def sauceHead (date : List Nat) (fileSize : Nat) : List Nat :=
-  BinFmt.sauceId ++ [48, 48] ++ List.replicate BinFmt.sauceTitleLen 32 ++ List.replicate BinFmt.sauceAuthorLen 32 ++
-    List.replicate BinFmt.sauceGroupLen 32 ++ date ++ u32le fileSize
+/-- what `write_sauce_info` reads of the buffer -/
+def bufInfo (p : Pic) (fontName : List Nat) : Sauce.BufInfo :=
+  { sauce := p.sauce, width := p.w, height := p.h, ice := p.ice == .ice, fontName := fontName }
 
-/-- data type, file type, TInfo1, TInfo2, ice flag, whether the font name goes into TInfoS; `none` = `Err` -/
-def sauceFields (k : SauceKind) (p : Pic) : Option (Nat × Nat × Nat × Nat × Bool × Bool) :=
-  let ice := p.ice == .ice
-  match k with
-  | .xbin => some (BinFmt.sauceDtXBin, 0, p.w, p.h, false, false)
-  | .bin => if p.w / 2 > 255 then none else some (BinFmt.sauceDtBinaryText, p.w / 2, 0, 0, ice, true)
-  | .ansi => some (BinFmt.sauceDtCharacter, BinFmt.sauceFtAnsi, p.w, p.h, ice, true)
-  | .tundra => some (BinFmt.sauceDtCharacter, BinFmt.sauceFtTundra, p.w, 0, false, false)
-
-/-- `Buffer::write_sauce_info(kind, body)` for a buffer without SAUCE data: EOF char + 128-byte record -/
+/-- `Buffer::write_sauce_info(kind, body)`: EOF char, comment block, 128-byte record (title, author, group, comments and
+    the two display flags come from the buffer's own SAUCE data, if it has any) -/
 def writeSauce (k : SauceKind) (p : Pic) (date : List Nat) (body : List Nat) : Out (List Nat) :=
-  match lookupFont p.fonts 0 with
-  | none => .panic                                   -- `self.get_font(0).unwrap()`
-  | some f0 =>
-    match sauceFields k p with
-    | none => .err
-    | some (dt, ft, t1, t2, ice, named) =>
-      .ok (body ++ [0x1A] ++ sauceHead date (body.length + 1) ++
-        ([dt % 256, ft % 256] ++ u16le t1 ++ u16le t2 ++ [0, 0, 0, 0] ++ [0, if ice then BinFmt.sauceFlagNonBlink else 0] ++
-          infoStr (if named then f0.name else [])))
+  if (p.sauce.getD {}).comments.length > Gen.Sauce.commentLimit then .err      -- checked before the font is looked up
+  else
+    match lookupFont p.fonts 0 with
+    | none => .panic                                   -- `self.get_font(0).unwrap()`
+    | some f0 =>
+      match Sauce.writeSauceInfo k.idx (bufInfo p f0.name) date body with
+      | .ok bytes => .ok bytes
+      | .err _ => .err
+      | .panic _ => .panic
 
 def isDigit (b : Nat) : Bool := 48 ≤ b && b ≤ 57
 
@@ -218,61 +239,36 @@ def dateOk (d : List Nat) : Bool :=
     else false
   | _ => false
 
-/-- what the loaders use of a SAUCE record -/
-structure Sauce where
-  w : Nat
-  h : Nat
-  useIce : Bool
-  headerLen : Nat
-deriving Repr, DecidableEq
+/-- `SauceData::extract(bytes)` finds a record (`Ok(Some(..))`): the tail of the file is taken for SAUCE data and cut off
+    before the format loader runs — also when it is picture content of a file written WITHOUT a SAUCE record -/
+def tailReadsAsSauce (bytes : List Nat) : Bool :=
+  match Sauce.extract dateOk bytes with
+  | .ok (some _) => true
+  | _ => false
 
-inductive SauceOut | none | some (s : Sauce) | panic
-deriving Repr
+/-- the part of a SAUCE record the buffer keeps for the next save -/
+def metaOf (s : Sauce.Sauce) : Sauce.Meta :=
+  { title := s.title, author := s.author, group := s.group, comments := s.comments, ar := s.ar, ls := s.ls }
 
-/-- buffer size and ice flag `SauceData::extract` derives from data type, file type, TInfo1/2 and the flags byte -/
-def sauceDims (dt ft t1 t2 fl : Nat) : Nat × Nat × Bool :=
-  let nb := fl &&& BinFmt.sauceFlagNonBlink == BinFmt.sauceFlagNonBlink
-  if dt = BinFmt.sauceDtBinaryText then ((ft * 2) % 65536, BinFmt.sauceDefaultH, nb)
-  else if dt = BinFmt.sauceDtXBin then (t1, t2, false)
-  else if dt = BinFmt.sauceDtCharacter then
-    if ft = BinFmt.sauceFtAscii ∨ ft = BinFmt.sauceFtAnsi ∨ ft = BinFmt.sauceFtAnsimation then (t1, t2, nb)
-    else if ft = BinFmt.sauceFtPcboard ∨ ft = BinFmt.sauceFtAvatar ∨ ft = BinFmt.sauceFtTundra then (t1, t2, false)
-    else (BinFmt.sauceDefaultW, BinFmt.sauceDefaultH, false)
-  else (BinFmt.sauceDefaultW, BinFmt.sauceDefaultH, false)
+/-- `Buffer::set_font(slot, font)` on the font table (a map: the first entry of a slot counts) -/
+def setFont (fonts : List (Nat × Font)) (slot : Nat) (f : Font) : List (Nat × Font) :=
+  (slot, f) :: fonts.filter (fun e => e.1 != slot)
 
-/-- `SauceData::extract` as used by `from_bytes` (`Err` is logged and treated like "no SAUCE") -/
-def extractSauce (data : List Nat) : SauceOut :=
-  if data.length < BinFmt.sauceLen then .none else
-  let r := data.drop (data.length - BinFmt.sauceLen)
-  if r.take 5 != BinFmt.sauceId then .none
-  else if (r.drop 5).take 2 != [48, 48] then .none
-  else if !dateOk ((r.drop 82).take 8) then .none
-  else
-    match r.drop 94 with
-    | dt :: ft :: t1l :: t1h :: t2l :: t2h :: _ :: _ :: _ :: _ :: nc :: fl :: _ =>
-      let dims := sauceDims dt ft (t1l + t1h * 256) (t2l + t2h * 256) fl
-      let w := dims.1
-      let h := dims.2.1
-      let ice := dims.2.2
-      let body := data.length - BinFmt.sauceLen
-      if nc > 0 then
-        if body < nc * 64 + 5 then .none                                   -- InvalidCommentBlock
-        else
-          let start := body - nc * 64 - 5
-          if (data.drop start).take 5 != BinFmt.sauceCommentId then .none   -- InvalidCommentId
-          else if start = 0 then .panic                                     -- `len - 1` on usize
-          else .some ⟨w, h, ice, data.length - (start - 1)⟩
-      else if body = 0 then .panic
-      else .some ⟨w, h, ice, data.length - (body - 1)⟩
-    | _ => .none
-
-/-- `Buffer::set_sauce(sauce, true)` on a start buffer (the font named by the record is not modelled: the harness
-    never uses a SAUCE font name; the formats that embed a font overwrite it anyway) -/
-def LBuf.setSauce (b : LBuf) : Option Sauce → LBuf
+/-- `Buffer::set_sauce(sauce, resize_to_sauce)` on a start buffer: size (widths of 0 or above 1000 are distrusted), the
+    font the record names if it is one of `SAUCE_FONT_NAMES`, the ice flag; the record itself is kept -/
+def LBuf.setSauce (b : LBuf) (resize : Bool) : Option Sauce.Sauce → LBuf
   | none => b
   | some s =>
-    let w := if s.w = 0 ∨ s.w > BinFmt.sauceMaxWidth then BinFmt.sauceFallbackWidth else s.w
-    { b with bw := w, bh := s.h, lw := w, lh := s.h, ice := if s.useIce then .ice else b.ice }
+    let b1 : LBuf :=
+      if resize then
+        let w := if s.width = 0 ∨ s.width > BinFmt.sauceMaxWidth then BinFmt.sauceFallbackWidth else s.width
+        { b with bw := w, bh := s.height, lw := w, lh := s.height,
+                 fonts := (match s.font.bind sauceFontByName with
+                           | some f => setFont b.fonts 0 f
+                           | none => b.fonts),
+                 ice := if s.ice then .ice else b.ice }
+      else b
+    { b1 with sauce := some (metaOf s) }
 
 /-! ## sequential placement of cells (`set_char(pos, c); advance_pos`) -/
 
@@ -337,9 +333,40 @@ def xbSave (compress sauce : Bool) (date : List Nat) (p : Pic) : Out (List Nat) 
 /-- a font block of `XBin::load_buffer`: `BitFont::create_8("", 8, font_size, &data[o..o + len])` + `guess_font_name` -/
 def mkFont (h : Nat) (data : List Nat) : Font := ⟨guessedName h data, h, data⟩
 
+/-- palette block and font block(s) of `XBin::load_buffer`: the buffer after them and the image data that follows -/
+def xbBlocks (b1 : LBuf) (hasPal hasFont ext : Bool) (fs : Nat) (rest : List Nat) : Out (LBuf × List Nat) :=
+  -- "This bit also requires the Font bit to be set" (x_bin.htm)
+  if ext ∧ ¬ hasFont then .err
+  -- palette
+  else if hasPal ∧ rest.length < Xb.paletteLength then .err
+  else
+    let b2 : LBuf := if hasPal then { b1 with pal := from63 (rest.take Xb.paletteLength) } else b1
+    let rest2 := if hasPal then rest.drop Xb.paletteLength else rest
+    let flen := fs * 256
+    if hasFont ∧ rest2.length < flen then .err
+    else if hasFont ∧ ext ∧ rest2.length < 2 * flen then .err
+    else
+      let b3 : LBuf :=
+        if hasFont then
+          if ext then { b2 with fonts := [(0, mkFont fs (rest2.take flen)), (1, mkFont fs ((rest2.drop flen).take flen))] }
+          else { b2 with fonts := [(0, mkFont fs (rest2.take flen))] }
+        else b2
+      let rest3 := if hasFont then (if ext then rest2.drop (2 * flen) else rest2.drop flen) else rest2
+      .ok (b3, rest3)
+
+/-- the image data of `XBin::load_buffer` (`read_data_compressed` / `read_data_uncompressed`, `decode_char`, `set_char`,
+    `crop_loaded_file`) -/
+def xbImage (b3 : LBuf) (w : Nat) (comp ice ext : Bool) (rest3 : List Nat) : Out LBuf :=
+  let pairs : Option (List (Nat × Nat)) := if comp then readCompressed rest3 else some (readUncompressed rest3)
+  match pairs with
+  | none => .panic
+  | some ps =>
+    let cells := ps.map (decodeChar ice ext)
+    .ok (placeAll false false 0 (w - 1) b3 0 0 cells).1.crop
+
 /-- `XBin::load_buffer` on the bytes before the SAUCE record -/
-def xbLoad (data : List Nat) (sauce : Option Sauce) : Out LBuf :=
-  let b0 := (LBuf.start BinFmt.xbStartW BinFmt.xbStartH (BinFmt.xbClearsRows == 1)).setSauce sauce
+def xbLoad (data : List Nat) (sauce : Option Sauce.Sauce) : Out LBuf :=
+  let b0 := (LBuf.start BinFmt.xbStartW BinFmt.xbStartH (BinFmt.xbClearsRows == 1)).setSauce true sauce
   match data with
   | i0 :: i1 :: i2 :: i3 :: _eof :: wl :: wh :: hl :: hh :: fs0 :: flags :: rest =>
     if [i0, i1, i2, i3] != [88, 66, 73, 78] then .err
@@ -357,35 +384,20 @@ def xbLoad (data : List Nat) (sauce : Option Sauce) : Out LBuf :=
           let ice := flags &&& Xb.flagNonBlink == Xb.flagNonBlink
           let ext := flags &&& Xb.flag512 == Xb.flag512
           let b1 : LBuf := { b0 with bw := w, bh := h, lw := w, lh := h, ice := if ice then .ice else .blink }
-          -- palette
-          if hasPal ∧ rest.length < Xb.paletteLength then .panic
-          else
-            let b2 : LBuf := if hasPal then { b1 with pal := from63 (rest.take Xb.paletteLength) } else b1
-            let rest2 := if hasPal then rest.drop Xb.paletteLength else rest
-            let flen := fs * 256
-            if hasFont ∧ rest2.length < flen then .panic
-            else if hasFont ∧ ext ∧ rest2.length < 2 * flen then .panic
-            else
-              let b3 : LBuf :=
-                if hasFont then
-                  if ext then { b2 with fonts := [(0, mkFont fs (rest2.take flen)), (1, mkFont fs ((rest2.drop flen).take flen))] }
-                  else { b2 with fonts := [(0, mkFont fs (rest2.take flen))] }
-                else b2
-              let rest3 := if hasFont then (if ext then rest2.drop (2 * flen) else rest2.drop flen) else rest2
-              let pairs : Option (List (Nat × Nat)) := if comp then readCompressed rest3 else some (readUncompressed rest3)
-              match pairs with
-              | none => .panic
-              | some ps =>
-                let cells := ps.map (decodeChar ice ext)
-                .ok (placeAll false false 0 (w - 1) b3 0 0 cells).1.crop
+          match xbBlocks b1 hasPal hasFont ext fs rest with
+          | .ok (b3, rest3) => xbImage b3 w comp ice ext rest3
+          | .err => .err
+          | .panic => .panic
   | _ => .err
 
 /-! ## BIN -/
 
 /-- `Bin::to_bytes` (`ch.ch as u8` truncates silently) -/
 def binSave (sauce : Bool) (date : List Nat) (p : Pic) : Out (List Nat) :=
-  let body := p.rows.flatMap fun row => row.flatMap fun c => [c.ch % 256, asU8' p.ice c.attr]
-  if sauce then writeSauce .bin p date body else .ok body
+  if p.w % 2 ≠ 0 then .err                             -- the SAUCE record stores width / 2
+  else
+    let body := p.rows.flatMap fun row => row.flatMap fun c => [c.ch % 256, asU8' p.ice c.attr]
+    if sauce then writeSauce .bin p date body else .ok body
 
 /-- complete (character, attribute) pairs; a dangling last byte is ignored -/
 def pairsOf : List Nat → List (Nat × Nat)
@@ -396,8 +408,8 @@ def pairsOf : List Nat → List (Nat × Nat)
 def fromU8' (im : IceMode) (attr : Nat) : Attr := fromU8 (im == .ice) attr
 
 /-- `Bin::load_buffer` (the `is_bold` branch is dead: `from_u8` never sets BOLD) -/
-def binLoad (data : List Nat) (sauce : Option Sauce) : Out LBuf :=
-  let b0 := (LBuf.start BinFmt.binStartW BinFmt.binStartH (BinFmt.binClearsRows == 1)).setSauce sauce
+def binLoad (data : List Nat) (sauce : Option Sauce.Sauce) : Out LBuf :=
+  let b0 := (LBuf.start BinFmt.binStartW BinFmt.binStartH (BinFmt.binClearsRows == 1)).setSauce true sauce
   let cells := (pairsOf data).map fun p => (⟨p.1, fromU8' b0.ice p.2⟩ : Cell)
   let b1 := (placeAll true false 0 (b0.bw - 1) b0 0 0 cells).1
   .ok { b1 with bh := b1.lh }
@@ -427,23 +439,19 @@ def adfSave (sauce : Bool) (date : List Nat) (p : Pic) : Out (List Nat) :=
     let fonts := analyzeFontUsage p.rows.flatten
     if fonts.length > 1 then .err
     else
-      match lookupFont p.fonts 0 with
-      | none => .panic                                     -- `get_font_dimensions`: `font_table[&0]`
-      | some f0 =>
-        if f0.height ≠ 16 then .err
+      match lookupFont p.fonts (fonts.headD 0) with
+      | none => .err
+      | some font =>
+        if font.height ≠ 16 then .err                      -- the height of the font that is embedded (C17 repair)
+        else if !rowsFit8 p.rows then .err
         else
-          match lookupFont p.fonts (fonts.headD 0) with
-          | none => .err
-          | some font =>
-            if !rowsFit8 p.rows then .err
-            else
-              let body := [BinFmt.adfVersion] ++ toEgaData p.pal ++ font.data ++
-                p.rows.flatMap (fun row => row.flatMap fun c => [c.ch, asU8 .ice c.attr])
-              if sauce then writeSauce .ansi p date body else .ok body
+          let body := [BinFmt.adfVersion] ++ toEgaData p.pal ++ font.data ++
+            p.rows.flatMap (fun row => row.flatMap fun c => [c.ch, asU8 .ice c.attr])
+          if sauce then writeSauce .ansi p date body else .ok body
 
 /-- `Artworx::load_buffer` -/
-def adfLoad (data : List Nat) (sauce : Option Sauce) : Out LBuf :=
-  let b0 := (LBuf.start BinFmt.adfStartW BinFmt.adfStartH (BinFmt.adfClearsRows == 1)).setSauce sauce
+def adfLoad (data : List Nat) (sauce : Option Sauce.Sauce) : Out LBuf :=
+  let b0 := (LBuf.start BinFmt.adfStartW BinFmt.adfStartH (BinFmt.adfClearsRows == 1)).setSauce true sauce
   let b1 : LBuf := { b0 with bw := BinFmt.adfWidth, ice := .ice }
   if data.length < BinFmt.adfHeaderLength then .err
   else
@@ -503,16 +511,13 @@ def idfSave (compress sauce : Bool) (date : List Nat) (p : Pic) : Out (List Nat)
       match idfRows compress p.rows with
       | none => .err
       | some img =>
-        match lookupFont p.fonts 0 with
-        | none => .panic                                   -- `get_font_dimensions`
-        | some f0 =>
-          if f0.height ≠ 16 then .err
+        match lookupFont p.fonts (fonts.headD 0) with
+        | none => .err
+        | some font =>
+          if font.height ≠ 16 then .err                    -- the size of the font that is embedded (C17 repair)
           else
-            match lookupFont p.fonts (fonts.headD 0) with
-            | none => .err
-            | some font =>
-              let body := BinFmt.idfHeader14 ++ [0, 0, 0, 0] ++ u16le (p.w - 1) ++ u16le (p.h - 1) ++ img ++ font.data ++ asVec63 p.pal
-              if sauce then writeSauce .bin p date body else .ok body
+            let body := BinFmt.idfHeader14 ++ [0, 0, 0, 0] ++ u16le (p.w - 1) ++ u16le (p.h - 1) ++ img ++ font.data ++ asVec63 p.pal
+            if sauce then writeSauce .bin p date body else .ok body
 
 /-- the loop `while o + 1 < data_size` of the loader over the screen data (the bytes from offset 12 up to `data_size`):
     the (repeat count, character, attribute) items it places, and the number of bytes it consumes (the font is read from
@@ -534,10 +539,11 @@ def idfScan : Nat → List Nat → List (Nat × Nat × Nat) × Nat
         ((1, c, a) :: r.1, 2 + r.2)
     | _ => ([], 0)
 
-/-- `IceDraw::load_buffer` (the SAUCE record is cut off by `from_bytes` but otherwise ignored) -/
-def idfLoad (data : List Nat) : Out LBuf :=
+/-- `IceDraw::load_buffer` (the SAUCE record is cut off by `from_bytes` and kept for the next save, `set_sauce(.., false)`:
+    it neither resizes the buffer nor names a font) -/
+def idfLoad (data : List Nat) (sauce : Option Sauce.Sauce) : Out LBuf :=
   let b0 := LBuf.start BinFmt.idfStartW BinFmt.idfStartH (BinFmt.idfClearsRows == 1)
-  let b1 : LBuf := { b0 with ice := .ice }
+  let b1 : LBuf := ({ b0 with ice := .ice } : LBuf).setSauce false sauce
   if data.length < BinFmt.idfHeaderSize + BinFmt.idfFontSize + BinFmt.idfPaletteSize then .err
   else if data.take 4 != BinFmt.idfHeader13 ∧ data.take 4 != BinFmt.idfHeader14 then .err
   else
@@ -550,6 +556,10 @@ def idfLoad (data : List Nat) : Out LBuf :=
       let dataSize := data.length - BinFmt.idfFontSize - BinFmt.idfPaletteSize
       let screen := (data.take dataSize).drop BinFmt.idfHeaderSize
       let scan := idfScan (screen.length + 1) screen
+      let total := (scan.1.map fun it => it.1).sum
+      -- `if pos.y > u16::MAX { return Err(OutOfBounds) }` before every cell: cell number i goes to row y1 + i / width
+      if total > 0 ∧ y1 + (total - 1) / (x2 - x1 + 1) > BinFmt.idfMaxY then .err
+      else
       let cells := scan.1.flatMap fun it => List.replicate it.1 (⟨it.2.1, fromU8 true it.2.2⟩ : Cell)
       let b3 := (placeAll true true x1 x2 b2 x1 y1 cells).1
       let o := BinFmt.idfHeaderSize + scan.2
@@ -634,7 +644,7 @@ def tndPut (s : TL) (ch : Nat) : TL :=
   let b2 := b1.setCharI s.x s.y ⟨ch, ⟨s.fg, s.bg, 0, Xb.defaultPage⟩⟩
   if s.x + 1 ≥ (b2.bw : Int) then { s with buf := b2, x := 0, y := s.y + 1 } else { s with buf := b2, x := s.x + 1 }
 
-/-- the command loop of `TundraDraw::load_buffer`; `panic` = a command cut off by the end of the file -/
+/-- the command loop of `TundraDraw::load_buffer`; a command cut off by the end of the file is `Err(FileTooShort)` -/
 def tndLoop : Nat → List Nat → TL → Out TL
   | 0, _, s => .ok s
   | _, [], s => .ok s
@@ -650,11 +660,11 @@ def tndLoop : Nat → List Nat → TL → Out TL
             let x := be32 x0 x1 x2 x3
             if x ≥ (s.buf.bw : Int) then .err
             else tndLoop fuel rest'' { s with x := x, y := y }
-          | _ => .panic
-      | _ => .panic
+          | _ => .err
+      | _ => .err
     else if cmd > BinFmt.tndCmdAbove ∧ cmd ≤ BinFmt.tndCmdUpTo then
       match rest with
-      | [] => .panic
+      | [] => .err
       | ch :: rest1 =>
         let fgR : Out (List Nat × TL) :=
           if cmd &&& BinFmt.tndColorFg ≠ 0 then
@@ -662,7 +672,7 @@ def tndLoop : Nat → List Nat → TL → Out TL
             | _ :: r :: g :: b :: rest2 =>
               let ins := insertColor s.buf.pal (r, g, b)
               .ok (rest2, { s with buf := { s.buf with pal := ins.1 }, fg := ins.2 })
-            | _ => .panic
+            | _ => .err
           else .ok (rest1, s)
         match fgR with
         | .panic => .panic
@@ -674,7 +684,7 @@ def tndLoop : Nat → List Nat → TL → Out TL
               | _ :: r :: g :: b :: rest3 =>
                 let ins := insertColor s2.buf.pal (r, g, b)
                 .ok (rest3, { s2 with buf := { s2.buf with pal := ins.1 }, bg := ins.2 })
-              | _ => .panic
+              | _ => .err
             else .ok (rest2, s2)
           match bgR with
           | .panic => .panic
@@ -682,9 +692,16 @@ def tndLoop : Nat → List Nat → TL → Out TL
           | .ok (rest3, s3) => tndLoop fuel rest3 (tndPut s3 ch)
     else tndLoop fuel rest (tndPut s cmd)
 
+/-- the start buffer of `TundraDraw::load_buffer`: `set_sauce`, then — the width is stored nowhere else — SAUCE widths above
+    the sanity limit of `set_sauce` are taken as they are -/
+def tndStart (sauce : Option Sauce.Sauce) : LBuf :=
+  let b00 := (LBuf.start BinFmt.tndStartW BinFmt.tndStartH (BinFmt.tndClearsRows == 1)).setSauce true sauce
+  let sw := match sauce with | some s => s.width | none => 0
+  if sw > BinFmt.tndWideAbove then { b00 with bw := sw, lw := sw } else b00
+
 /-- `TundraDraw::load_buffer` -/
-def tndLoad (data : List Nat) (sauce : Option Sauce) : Out LBuf :=
-  let b0 := (LBuf.start BinFmt.tndStartW BinFmt.tndStartH (BinFmt.tndClearsRows == 1)).setSauce sauce
+def tndLoad (data : List Nat) (sauce : Option Sauce.Sauce) : Out LBuf :=
+  let b0 := tndStart sauce
   if data.length < 1 + BinFmt.tndHeader.length then .err
   else if (data.drop 1).take BinFmt.tndHeader.length != BinFmt.tndHeader then .err
   else
@@ -714,20 +731,21 @@ def save (f : Fmt) (o : Opts) (date : List Nat) (p : Pic) : Out (List Nat) :=
   | .idf => idfSave o.compress o.sauce date p
   | .tnd => tndSave o.sauce date p
 
-def loadBody (f : Fmt) (data : List Nat) (s : Option Sauce) : Out LBuf :=
+def loadBody (f : Fmt) (data : List Nat) (s : Option Sauce.Sauce) : Out LBuf :=
   match f with
   | .xb => xbLoad data s
   | .bin => binLoad data s
   | .adf => adfLoad data s
-  | .idf => idfLoad data
+  | .idf => idfLoad data s
   | .tnd => tndLoad data s
 
-/-- `Buffer::from_bytes(Path::new("a.<ext>"), _, bytes)` -/
+/-- `Buffer::from_bytes(Path::new("a.<ext>"), _, bytes)`: `SauceData::extract`, an `Err` of it is logged and treated like
+    "no SAUCE", the record (with comment block and EOF character) is cut off, then the loader of the extension -/
 def fromBytes (f : Fmt) (bytes : List Nat) : Out LBuf :=
-  match extractSauce bytes with
-  | .panic => .panic
-  | .none => loadBody f bytes none
-  | .some s => loadBody f (bytes.take (bytes.length - s.headerLen)) (some s)
+  match Sauce.fromBytesSplit dateOk bytes with
+  | .ok (content, s) => loadBody f content s
+  | .err _ => .err
+  | .panic _ => .panic
 
 /-! ## the picture a loaded buffer shows, and "the same picture" -/
 
@@ -744,7 +762,7 @@ def LBuf.rowCells (b : LBuf) (y : Nat) : List Cell :=
 def LBuf.toPic (b : LBuf) : Pic :=
   { w := b.bw, h := b.bh.toNat,
     rows := (List.range b.bh.toNat).map fun y => b.rowCells y,
-    ice := b.ice, pal := b.pal, fonts := b.fonts }
+    ice := b.ice, pal := b.pal, fonts := b.fonts, sauce := b.sauce }
 
 /-- colour of the foreground pixels (`Buffer::render_to_rgba`: bold folds colours 0..7 to 8..15) -/
 def dispFg (pal : List Rgb) (c : Cell) : Rgb :=
@@ -804,14 +822,27 @@ def wellFormed (p : Pic) : Bool := p.rows.length == p.h && p.rows.all (fun r => 
 
 def allCells (p : Pic) (f : Cell → Bool) : Bool := p.rows.all fun r => r.all f
 
-/-- an 8-bit character, visible, 16 foreground colours, bit 7 of the attribute byte free for what the mode says -/
+/-- an 8-bit character, 16 foreground colours, bit 7 of the attribute byte free for what the mode says.  (Cells that
+    `Buffer::get_char` reports as invisible — outside every layer — are written like any other cell by the attribute-byte
+    formats and come back as blanks in the same colours: no visibility condition.) -/
 def attrCell (ice : Bool) (c : Cell) : Bool :=
-  c.ch ≤ 255 && isVisible c && c.attr.fg < 16 && (if ice then c.attr.bg < 16 && !isBlink c.attr else c.attr.bg < 8)
+  c.ch ≤ 255 && c.attr.fg < 16 && (if ice then c.attr.bg < 16 && !isBlink c.attr else c.attr.bg < 8)
+
+/-- an 8x16 font block (ADF and IDF always embed font 0, whatever it is called) -/
+def font16 (f : Font) : Bool := f.height == 16 && f.data.length == 4096
 
 def fontOk (f : Font) : Bool := 1 ≤ f.height && f.height ≤ 32 && f.data.length == 256 * f.height
 
+/-- the buffer's own SAUCE data is what `SauceString::from` / `read` produce (strings within their field lengths) and has
+    at most 255 comment lines (`write_sauce_info` refuses more) -/
+def metaOk (m : Option Sauce.Meta) : Bool :=
+  match m with
+  | none => true
+  | some m => m.title.length ≤ Gen.Sauce.titleLen && m.author.length ≤ Gen.Sauce.authorLen && m.group.length ≤ Gen.Sauce.groupLen &&
+      m.comments.all (fun c => c.length ≤ Gen.Sauce.commentLen) && m.comments.length ≤ Gen.Sauce.commentLimit
+
 def Representable (f : Fmt) (o : Opts) (p : Pic) : Bool :=
-  wellFormed p &&
+  metaOk p.sauce && wellFormed p &&
   match f with
   | .xb =>
     let pages := analyzeFontUsage p.rows.flatten
@@ -831,21 +862,21 @@ def Representable (f : Fmt) (o : Opts) (p : Pic) : Bool :=
     p.w == 80 && p.h ≤ 65535 && p.ice == .ice && allCells p (attrCell true) && pal16 p.pal && analyzeFontUsage p.rows.flatten == [0] &&
     (match lookupFont p.fonts 0 with
      | none => false
-     | some f0 => fontOk f0 && f0.height == 16)
+     | some f0 => font16 f0)
   | .idf =>
     1 ≤ p.w && p.w ≤ 80 && p.h ≤ 200 && p.ice == .ice && allCells p (attrCell true) && pal16 p.pal &&
     analyzeFontUsage p.rows.flatten == [0] &&
     (match lookupFont p.fonts 0 with
      | none => false
-     | some f0 => fontOk f0 && f0.height == 16)
+     | some f0 => font16 f0)
   | .tnd =>
     (p.w == 80 || (o.sauce && 1 ≤ p.w && p.w ≤ 65535)) && p.w * p.h < 1073741824 && p.ice == .ice &&
     analyzeFontUsage p.rows.flatten == [0] &&
     (!o.sauce || (lookupFont p.fonts 0).isSome) &&
     allCells p fun c => c.ch ≤ 255 && isVisible c && !isBlink c.attr && c.attr.fg < 2147483648 && c.attr.bg < 2147483648
 
-/-- the last 128 bytes of a file written WITHOUT a SAUCE record spell a SAUCE record (picture content that
-    `from_bytes` cannot tell from one) -/
+/-- the last 128 bytes of a file begin with the SAUCE signature: necessary for `tailReadsAsSauce` (which also needs
+    version `00` and a date chrono accepts), kept as the cheap sufficient condition for "the loader sees the whole file" -/
 def looksLikeSauce (bytes : List Nat) : Bool :=
   bytes.length ≥ BinFmt.sauceLen && (bytes.drop (bytes.length - BinFmt.sauceLen)).take 5 == BinFmt.sauceId
 
